@@ -83,7 +83,8 @@ pub struct Case {
     pub dir: String,
 }
 
-const MACRO_NAMES: &[&str] = &["MA", "MB", "MC", "MD", "ME", "wire", "begin", "M_f"];
+// (the last four start like a directive name: `else_x is a macro usage, not `else followed by _x)
+const MACRO_NAMES: &[&str] = &["MA", "MB", "MC", "MD", "ME", "wire", "begin", "M_f", "else_x", "endif_1", "elsif_y", "include_w"];
 const FORMAL_NAMES: &[&str] = &["x", "y", "p_a", "fmt"];
 const KEPT: &[&str] = &[
     "`timescale 1ns/1ps",
@@ -684,7 +685,8 @@ impl<'a, 'b> G<'a, 'b> {
                         }
                     } else {
                         // dead: anything lexically well formed, e.g. an undefined macro with arguments
-                        let u = Usage { name: "NOT_DEFINED_ANYWHERE".to_string(), args: Some(vec![vec![ArgTok::Tok("z".to_string())]]), ws_before_paren: String::new() };
+                        let dead_name = self.t.pick_str(&["NOT_DEFINED_ANYWHERE", "NOT_DEFINED_ANYWHERE", "endif_nowhere", "else_nowhere", "elsif_nowhere"]).to_string();
+                        let u = Usage { name: dead_name, args: Some(vec![vec![ArgTok::Tok("z".to_string())]]), ws_before_paren: String::new() };
                         let ws = self.ws();
                         out.push(Item::Use(u, ws));
                     }
